@@ -93,6 +93,12 @@ def check_sig(spec, ret, future, stats, enum=True, shp=None):
         stats.sample('sig', {'text': text, 'ret': ret, 'postponed': future})
     haspo = PO in kinds
     kw = {} if ret is None else {'ret': ret}
+    kn = {PO: 'po', POK: 'pok', VP: 'va', KWO: 'kwo', VK: 'vk'}
+    stats.cls('signature/kinds=%s' % ('+'.join(kn[k] for k in (PO, POK, VP, KWO, VK) if k in kinds) or 'none'))
+    stats.cls('signature/%s%s%s' % ('postponed' if future else 'eager', ',annotated' if any(p.ann for p in spec) else '',
+                                    ',return-annotated' if ret is not None else ''))
+    if any(p.default is not None for p in spec):
+        stats.cls('signature/with-defaults')
     # --- building: native + option combinations.  One namespace serves every build of the case (as a test module's would), a
     # helper function named like an annotation is built in it before anything is evaluated: builds are independent of each other
     ns = dict(GLOBALS)
@@ -133,6 +139,7 @@ def check_sig(spec, ret, future, stats, enum=True, shp=None):
     # --- func_from_sig round trip (native spelling; needs names resolvable without globals: literals only)
     if all(p.ann in (None, '1', "'x'") for p in spec) and ret in (None, "'ret'") and not future:
         stats.case()
+        stats.cls('func_from_sig round trip')
         try:
             base = support.s(text, **kw)
             f2 = support.func_from_sig(base)
@@ -179,6 +186,7 @@ def check_sig(spec, ret, future, stats, enum=True, shp=None):
             stats.fail('C20/bind_callsig/list-arguments', dict(case, args=list(args), kwargs=kwargs),
                        'bind_callsig((%s), %r, %r) -> %r with a tuple of arguments but %r with a list' % (text, args, kwargs, bound, bound_l))
             break
+        stats.cls('call/%s' % ('rejected' if want is None else 'accepted%s' % (',keywords' if K else '')))
         if got != want:
             stats.fail('C20/f-call', dict(case, args=list(args), kwargs=kwargs), 'f(%s)(*%r, **%r) -> %r, CPython reference binding -> %r' % (desc, args, kwargs, got, want))
             break
